@@ -1,8 +1,9 @@
 (* C05 — Primary = highest 128-bit election id; reported id is the running maximum.
-   Statements only; proofs live in Server/ElectionFacts.v and Server/ElectionInv.v. *)
-From Coq Require Import List NArith.
+   Statements only; proofs live in Server/ElectionFacts.v, Server/ElectionInv.v and
+   Server/DecisionsFacts2.v. *)
+From Coq Require Import List NArith String.
 From GV.Base Require Import U128 U128Facts GoLite.
-From GV.Server Require Import Model ElectionFacts ElectionInv.
+From GV.Server Require Import Model ElectionFacts ElectionInv DecisionsFacts DecisionsFacts2.
 From GV.Generated Require Import Decisions.
 Import ListNotations.
 Open Scope N_scope.
@@ -14,6 +15,30 @@ Theorem C05_regenerated_isNewMaster (c : u128) (e : option u128) :
   = Ret [VBool (is_new_master sv_fixed c e); VBool (same_id c e); VNil].
 Proof. exact (gen_isNewMaster_agrees c e). Qed.
 Print Assumptions C05_regenerated_isNewMaster.
+
+(* runElection as it is in /repo/server/server.go on this run (regenerated), for every session
+   name, candidate id (any two words), election state and client table [tbl] that holds the
+   calling session's record: it never panics; what it returns (error class, or the response
+   carrying s.curElecID) and what it leaves in curElecID / curMaster / the session's lastElecID
+   are those of the model's do_elect.  The call of isNewMaster runs the regenerated isNewMaster;
+   getClientStateCopy / storeClientElectionID have the meaning of GoLite.mcall. *)
+Theorem C05_regenerated_runElection (R : Type) (name : N -> string) (s : srv R) (c : N) (x : sess) (id : u128)
+        (tbl : list (string * gval)) :
+  tbl_get (name c) tbl = Some (enc_sess x) ->
+  let st := do_elect R sv_fixed c x id s in
+  run_method decisions_funs "s" (re_env (name c) id (srv_val (cur s) (mname name (master s)) tbl)) runElection_body
+  = Some (srv_val (cur (fst st)) (mname name (master (fst st))) (tbl_after R name c st tbl), enc_out (snd st)).
+Proof. exact (gen_runElection_agrees R name s c x id tbl). Qed.
+Print Assumptions C05_regenerated_runElection.
+
+(* ... and when [tbl] is the model's own session table, the table left by the code holds, under
+   every session name, the record the model holds after upd_sess *)
+Theorem C05_runElection_table (R : Type) (name : N -> string) (s : srv R) (c d : N) (x' : sess) :
+  (forall a b, name a = name b -> a = b) ->
+  tbl_get (name d) (tbl_set (name c) (enc_sess x') (enc_table name (ss s)))
+  = option_map enc_sess (sget R d (upd_sess R c x' s)).
+Proof. exact (table_after_upd R name s c d x'). Qed.
+Print Assumptions C05_runElection_table.
 
 Theorem C05_new_master_is_128bit_order (c e : u128) : inrange c -> inrange e ->
   is_new_master sv_fixed c (Some e) = (val e <=? val c).
@@ -69,4 +94,16 @@ Example C05_example :
   map snd (anns unit unit (fun _ n => n =? 1) (fun r _ o => (r, ([op_id o], [], false))) (fun r _ o => (r, ([op_id o], [], false)))
                 (srv0 unit tt) h)
   = [Some (2, 1); Some (2, 1); Some (2, 1)].
+Proof. vm_compute. reflexivity. Qed.
+
+(* non-vacuity of C05_regenerated_runElection: two sessions, the second announces (2, 7) over (2, 1) *)
+Example C05_runElection_example :
+  let x := {| s_params := {| cp_persist := true; cp_expect := true; cp_fib := false |}; s_set := true;
+              s_last := None; s_gotmsg := true |} in
+  let tbl := [("a", enc_sess x); ("b", enc_sess x)]%string in
+  run_method decisions_funs "s" (re_env "b" (2, 7) (srv_val (Some (2, 1)) "a" tbl)) runElection_body
+  = Some (srv_val (Some (2, 7)) "b"
+                  [("a", enc_sess x);
+                   ("b", enc_sess {| s_params := s_params x; s_set := true; s_last := Some (2, 7); s_gotmsg := true |})]%string,
+          [VPtr [("#type", VStr "ModifyResponse"); ("ElectionId", u128_ptr (Some (2, 7)))]; VNil]%string).
 Proof. vm_compute. reflexivity. Qed.
